@@ -101,6 +101,8 @@ def run(repo: Repo, rep: Report, tier: str) -> None:
         rep.error(f"only {n_cfg} discriminator configurations analysed")
     _python_level(repo, rep)
     _registry_granularity(repo, rep)
+    if getattr(rep, "borrowed", False):
+        return  # another property borrows main-body rules only
     from ..core import regget
     regget.report(repo, rep, "R12.6", {"annotated-inherit"})
     from . import c05 as _c05
